@@ -159,6 +159,7 @@ struct Stats {
     uint64_t c[CT_COUNT];
     uint64_t opk[OP_KIND_COUNT];
     uint64_t site_preempt[SK_COUNT];
+    uint64_t max_budget_permille = 0;        // largest share of an op's hang budget any op used (sanity of the budget estimate)
     std::set<uint32_t> states;               // abstract states reached (engine specific encoding)
     std::unordered_set<uint64_t> schedules;  // distinct switch-sequence hashes
     std::unordered_set<uint64_t> shapes;     // distinct non-trivial plan shapes
@@ -237,6 +238,7 @@ struct CurOp {                 // context of the op currently executing in a tas
     int fds_open = 0; int fd_next = 0; int opens = 0, closes = 0; int fds[16]; int nfds = 0;
     bool in_call = false;      // a library call is on this task's stack
     int entry_errno = 0;       // errno value installed at every library entry of this op (plan data)
+    uint64_t op_events = 0, op_budget = ~0ULL; // yield points seen during this op / budget derived from its arguments
 };
 
 struct TaskState {
